@@ -75,6 +75,10 @@ type ChunkSpec struct {
 	// Empty > 0: every Empty-th Read returns (0, nil) - legal for an io.Reader
 	// (a polled device with nothing ready), and io.ReadFull simply reads again
 	Empty int `json:"empty,omitempty"`
+	// EmptyRun > 0: after its EmptyAfter-th Read the device goes idle once and
+	// answers EmptyRun consecutive Reads with (0, nil) before it delivers again
+	EmptyRun   int `json:"empty_run,omitempty"`
+	EmptyAfter int `json:"empty_after,omitempty"`
 	// Delay > 0: every Delay-th Read takes DelaySec seconds of (simulated) time
 	// before it returns - a slow device. The bubble's clock is fake, so minutes
 	// cost microseconds; a workflow may not give up on a slow but healthy source.
